@@ -158,6 +158,17 @@ func fieldsReset(c *Ctx, fn *ssa.Function, obj ssa.Value, named *types.Named, be
 	AllInstrs(fn, func(i ssa.Instruction) {
 		switch x := i.(type) {
 		case *ssa.Store:
+			if Strip(x.Addr) == Strip(obj) {
+				// *obj = T{}: every field at once
+				if cst, isC := x.Val.(*ssa.Const); isC && cst.Value == nil && every(x) {
+					if st, ok := named.Underlying().(*types.Struct); ok {
+						for k := 0; k < st.NumFields(); k++ {
+							out[st.Field(k).Name()] = true
+						}
+					}
+				}
+				return
+			}
 			fa, ok := x.Addr.(*ssa.FieldAddr)
 			if !ok || Strip(fa.X) != Strip(obj) {
 				return
@@ -189,7 +200,7 @@ func checkC08(c *Ctx) {
 	c.Rule("R8.2", "Pool.Get/Put are called only from the designated wrappers", 14)
 	c.Rule("R8.3", "no use of an object, and no escaping reference into its storage, after it was released", 10)
 	c.Rule("R8.4", "a buffer is released at most once: field cleared (or holder recycled) after Free; EncodeEntry's buffer freed exactly once after the write", 4)
-	c.Rule("R8.5", "pooled-buffer fields are only assigned nil or a buffer fresh from the pool (exclusive ownership)", 4)
+	c.Rule("R8.5", "pooled-buffer fields are only assigned nil or a buffer fresh from the pool (exclusive ownership)", 2)
 
 	pools := discoverPools(c)
 	if len(pools) < 7 {
@@ -500,6 +511,11 @@ func c8SingleRelease(c *Ctx) {
 				case *ssa.Store:
 					if f2, ok := x.Addr.(*ssa.FieldAddr); ok && Desc(f2.X) == Desc(holder) && f2.Field == fa.Field {
 						return IsNilConst(Strip(x.Val)) || isFreshBuffer(x.Val)
+					}
+					if Desc(x.Addr) == Desc(holder) {
+						if cst, isC := x.Val.(*ssa.Const); isC && cst.Value == nil {
+							return true // *holder = T{}
+						}
 					}
 				case *ssa.Call:
 					if callee := StaticCallee(x); callee != nil && clears[callee.String()][fname] && len(x.Call.Args) > 0 && Desc(x.Call.Args[0]) == Desc(holder) {
